@@ -45,7 +45,7 @@ const EPS: [&str; 3] = ["https", "http", "tcp"];
 const SHORT_TTL_MS: u64 = 150;
 const TICK_MS: u64 = 650; // > 4 x TTL
 const LONG_TTL_S: u64 = 3600;
-const SEG_PAUSE_MS: u64 = 3;
+const SEG_PAUSE_MS: u64 = 10;
 const QUERY_WATCHDOG_S: u64 = 170; // three 30 s client time-outs + slack; beyond that the call is recorded as a hang
 
 // --------------------------------------------------------------------------- SHA-256 (MIME checksum epilogue)
